@@ -9,6 +9,8 @@ import (
 	"hash/crc32"
 
 	"storj.io/drpc"
+
+	"verif/engine/sched"
 )
 
 // Bytes is the encoding; messages are *[]byte.
@@ -29,6 +31,9 @@ func (Bytes) Unmarshal(buf []byte, msg drpc.Message) error {
 	if !ok {
 		return errors.New("enc: message is not *[]byte")
 	}
+	// decoding takes time: the consumer of a lent buffer can be preempted here,
+	// between obtaining the buffer and copying out of it
+	sched.Point("Unmarshal", nil)
 	*p = append([]byte(nil), buf...)
 	return nil
 }
